@@ -52,7 +52,7 @@ theorem lprim_appIds {c c' : Cell} {lab : Lab} (hp : LPrim lab c c') : c'.apps.m
   | ghost _ => exact setApp_ids _ _
   | dropDangling _ _ _ => exact setApp_ids _ _
   | forgetIdentity _ _ _ _ _ => exact setApp_ids _ _
-  | tree _ => rfl
+  | tree _ _ => rfl
   | clearEv => simp [Function.comp]
 
 theorem reach_appIds {c c' : Cell} (h : Reach c c') : c'.apps.map (·.id) = c.apps.map (·.id) := by
@@ -130,7 +130,7 @@ theorem lprim_treeShape {c c' : Cell} {lab : Lab} (hc : c.tree.names.Nodup) (hp 
   | ghost _ => exact same rfl
   | dropDangling _ _ _ => exact same rfl
   | forgetIdentity _ _ _ _ _ => exact same rfl
-  | @tree _ t hsk =>
+  | @tree _ t hsk _ =>
     obtain ⟨e1, _, e3⟩ := views_of_skel hsk
     refine ⟨?_, e1⟩
     intro v' hv'
